@@ -113,3 +113,62 @@ Fixpoint tab2 (t : list (Q * Q * Q)) (b x : Q) : Q :=
   | [] => 0
   | (kb, kx, v) :: t' => if Qeq_bool kb b && Qeq_bool kx x then v else tab2 t' b x
   end.
+
+(* ----- switching the transformers of a LIVE space (Space.set_transformer with a string or a list,
+   Dimension.set_transformer, normalize_dimensions, Space.set_transformer_by_type) -----
+   The only state a Space / Dimension object carries for C09 is its current configuration; a switch replaces the
+   transform of some dimensions and nothing else.  Combinations the code rejects with ValueError leave the
+   dimension unchanged here (Real / Integer accept identity and normalize only). *)
+Inductive trname := TrIdentity | TrLabel | TrOnehot | TrNormalize.
+
+Definition set_tr (d : dim) (t : trname) : dim :=
+  match d, t with
+  | DReal lo hi p _, TrIdentity => DReal lo hi p TIdentity
+  | DReal lo hi p _, TrNormalize => DReal lo hi p TNormalize
+  | DInt lo hi p _, TrIdentity => DInt lo hi p TIdentity
+  | DInt lo hi p _, TrNormalize => DInt lo hi p TNormalize
+  | DCat k cats _, TrIdentity => DCat k cats CIdentity
+  | DCat k cats _, TrLabel => DCat k cats CLabel
+  | DCat k cats _, TrOnehot => DCat k cats COnehot
+  | DCat k cats _, TrNormalize => DCat k cats CNormalize
+  | _, _ => d
+  end.
+
+Definition tr_of (d : dim) : trname :=
+  match d with
+  | DReal _ _ _ TIdentity | DInt _ _ _ TIdentity | DCat _ _ CIdentity => TrIdentity
+  | DReal _ _ _ TNormalize | DInt _ _ _ TNormalize | DCat _ _ CNormalize => TrNormalize
+  | DCat _ _ CLabel => TrLabel
+  | DCat _ _ COnehot => TrOnehot
+  end.
+
+Definition kind_of (d : dim) : nat := match d with DReal _ _ _ _ => 0 | DInt _ _ _ _ => 1 | DCat _ _ _ => 2 end%nat.
+
+Inductive switch :=
+| SwAll (t : trname)                  (* space.set_transformer("normalize") ; normalize_dimensions = SwAll TrNormalize *)
+| SwList (ts : list trname)           (* space.set_transformer([...]) ; a second Space over the same dimension objects *)
+| SwDim (j : nat) (t : trname)        (* space.dimensions[j].set_transformer(t) *)
+| SwByType (k : nat) (t : trname).    (* space.set_transformer_by_type(t, Real | Integer | Categorical) *)
+
+Fixpoint set_list (sp : space) (ts : list trname) : space :=
+  match sp, ts with
+  | d :: sp', t :: ts' => set_tr d t :: set_list sp' ts'
+  | _, _ => sp
+  end.
+
+Fixpoint set_nth (sp : space) (j : nat) (t : trname) : space :=
+  match sp, j with
+  | [], _ => []
+  | d :: sp', O => set_tr d t :: sp'
+  | d :: sp', S j' => d :: set_nth sp' j' t
+  end.
+
+Definition apply_switch (sp : space) (s : switch) : space :=
+  match s with
+  | SwAll t => map (fun d => set_tr d t) sp
+  | SwList ts => set_list sp ts
+  | SwDim j t => set_nth sp j t
+  | SwByType k t => map (fun d => if Nat.eqb (kind_of d) k then set_tr d t else d) sp
+  end.
+
+Definition run_switches (sp : space) (ops : list switch) : space := fold_left apply_switch ops sp.
